@@ -92,6 +92,20 @@ pub struct Cfg {
   pub ids: usize,
   #[serde(default)]
   pub transparent: bool,
+  /// unusual but valid document ids (case variants, surrounding whitespace,
+  /// control and non-ASCII characters, length)
+  #[serde(default)]
+  pub odd_ids: bool,
+}
+
+const ODD_IDS: [&str; 8] = ["d0", "D0", " d0", "d0 ", "d\u{e9}\u{4e16}", "d\t1", "a/b\\c\"q\"", "dddddddddddddddddddddddddddddddddddddddddddddddddddddddddddddddddddddddddddddddd"];
+
+pub fn id_names(cfg: &Cfg) -> Vec<String> {
+  if cfg.odd_ids {
+    (0..cfg.ids).map(|i| ODD_IDS[i % ODD_IDS.len()].to_string()).collect()
+  } else {
+    (0..cfg.ids).map(|i| format!("d{}", i)).collect()
+  }
 }
 
 pub fn schema(profile: Profile) -> Schema {
@@ -392,7 +406,7 @@ pub fn gen_ops(rng: &mut Rng, cfg: &Cfg, p: &GenParams) -> Vec<Op> {
   let mut next_ver = 1u64;
   let mut readers: Vec<usize> = Vec::new();
   let mut next_r = 0usize;
-  let ids: Vec<String> = (0..cfg.ids).map(|i| format!("d{}", i)).collect();
+  let ids: Vec<String> = id_names(cfg);
   while ops.len() < p.len {
     let mut w = p.weights;
     if live.is_empty() {
